@@ -38,9 +38,10 @@ func TestMain(m *testing.M) {
 	debug.SetTraceback("all")
 	go deadlockWatchdog()
 	code := m.Run()
-	if code == 0 {
-		out.Done()
-	}
+	// In the -race build the testing package fails a test during which the
+	// detector reported anything; the reports themselves are read from the
+	// GORACE log by the driver, so the child still ended in an orderly way.
+	out.Done()
 	os.Exit(code)
 }
 
